@@ -64,9 +64,25 @@ func (bf *BanFile) Add(ip string, until *time.Time) error {
 		return fmt.Errorf("marshal yaml: %v", err)
 	}
 
-	err = os.WriteFile(filepath.Join(bf.filePath), out, 0644)
+	err = writeFileAtomic(filepath.Join(bf.filePath), out, 0644)
 	if err != nil {
 		return fmt.Errorf("write file: %v", err)
+	}
+
+	return nil
+}
+
+// writeFileAtomic writes data to a temporary file next to path and renames it into place, so that a crash at any
+// point leaves either the complete old file or the complete new one - never a truncated file.
+func writeFileAtomic(path string, data []byte, perm os.FileMode) error {
+	tempFilePath := path + ".tmp"
+
+	if err := os.WriteFile(tempFilePath, data, perm); err != nil {
+		return fmt.Errorf("write to temporary file: %v", err)
+	}
+
+	if err := os.Rename(tempFilePath, path); err != nil {
+		return fmt.Errorf("rename temporary file to final file: %v", err)
 	}
 
 	return nil
